@@ -41,6 +41,11 @@ def derive(obs, aspect, keep=lambda spec, p: True):
 
 def obligations(tier, seed=0):
     obs = derive(_c02.obligations(tier, seed) + _c06.obligations(tier, seed), 'canon')
+    # real and imaginary parts of complex results (quick tier: a third of C04's arithmetic grid)
+    from checks import c04 as _c04
+    cx = [(s_, p_) for s_, p_ in _c04.obligations(tier, seed) if s_.split(':')[1] in ('caddsub', 'cmul', 'cmul_int', 'cunary')
+          and p_.get('entry', 'libmp') == 'libmp']
+    obs += derive(cx if tier == 'thorough' else cx[::3], 'canon')
     obs.append(('checks.fam_arith2:shift_frexp', dict(bc=7, fn='mpf_shift')))
     obs.append(('checks.fam_arith2:shift_frexp', dict(bc=7, fn='mpf_frexp')))
     obs.append(('checks.fam_arith2:shift_frexp', dict(bc=1, fn='mpf_frexp')))
